@@ -372,6 +372,21 @@ def check(run, prog):
                 for nme in set(n for n, _ in rep):
                     if nme not in FATAL and [n for n, _ in rep].count(nme) > done.count(nme):
                         wrong = wrong or (names, f"{nme} gets more verdict lines than it was analysed")
+    # the same through a directory argument and through the no-argument default: the File objects then come from the
+    # discovery code (glob results), not from the command line
+    for cli_names, tree in ((("src",), {"src": {"clean.c": FILES["clean.c"], "fatal_l.c": FILES["fatal_l.c"]}}),
+                            (("src", "error.h"), {"src": {"fatal_p.h": FILES["fatal_p.h"]}, "error.h": FILES["error.h"]}),
+                            ((), {"fatal_l.c": FILES["fatal_l.c"], "sub": {"clean.c": FILES["clean.c"]}})):
+        o = runs.run(cli_names, None, tree=tree)
+        n_f += 1
+        if o.crash is not None:
+            escape = escape or (cli_names or ("<no argument>",), f"crash: {o.crash}")
+            continue
+        if o.status == 0:
+            noexit = noexit or (cli_names or ("<no argument>",), None)
+        for p in [p for p in started(o) if posixpath.basename(str(p)) in FATAL]:
+            if str(p) not in (o.stdout + o.stderr) and posixpath.basename(str(p)) not in (o.stdout + o.stderr):
+                unnamed = unnamed or (cli_names or ("<no argument>",), str(p))
     run.ob("R-4.3", f"{main.key}::handler[CParsingError]", escape is None,
            (f"no except clause of the per-file try covers CParsingError: with the files {describe(escape[0])} a fatal parse error "
             f"ends in a traceback ({escape[1]})") if escape else "covered", ex, evaluations=n_f)
